@@ -327,12 +327,21 @@ func c22(r *simk.Run) *simk.Violation {
 	}
 	nPeers := 1 + c.Intn(4)
 	nReq := c.Intn(14)
+	// an eighth of the runs: a long outage first, 10..30 consecutive requests without one honest answer
+	// (every peer down, slow or hostile for a while), then service resumes
+	outage := c.Bool(0.125)
+	if outage {
+		nReq = 10 + c.Intn(21)
+	}
 	behaviour := make([]int, nReq)
 	for i := range behaviour {
-		if c.Bool(0.35) {
+		if !outage && c.Bool(0.35) {
 			behaviour[i] = bHonest
 		} else {
-			behaviour[i] = c.Intn(nBehaviours)
+			behaviour[i] = 1 + c.Intn(nBehaviours-1)
+			if outage {
+				behaviour[i] = []int{bError, bEmpty, bForged, bTimeout, bError, bEmpty}[c.Intn(6)] // nothing usable
+			}
 		}
 	}
 	fwdDelay := make([]time.Duration, fwd)
